@@ -1,5 +1,5 @@
 (* C17 / F85 — proofs about coq/C17/ValSet.v *)
-From Coq Require Import List ZArith Bool Lia.
+From Coq Require Import List ZArith NArith Bool Lia.
 From TM Require Import Generated.Consts C17.ValSet.
 Import ListNotations.
 Open Scope Z_scope.
@@ -138,3 +138,13 @@ Lemma wire_valsets_repair_conservative :
   (forall ws, valset_from_proto_f85 ws <> DPanic -> valset_from_proto ws = valset_from_proto_f85 ws) /\
   (forall vals, valset_from_existing_f85 vals <> DPanic -> valset_from_existing vals = valset_from_existing_f85 vals).
 Proof. split; [exact valset_from_proto_conservative | exact valset_from_existing_conservative]. Qed.
+
+(* light-client-attack evidence off the wire: the repaired decoder never panics *)
+Lemma lcae_from_proto_no_panic : forall ws sh, lcae_from_proto ws sh <> DPanic.
+Proof.
+  intros ws sh. unfold lcae_from_proto, lcae_from_proto_with.
+  pose proof (valset_from_proto_no_panic ws) as H. unfold valset_from_proto in H.
+  destruct (sh =? 2)%N; [discriminate|].
+  destruct (valset_from_proto_with DErr ws); [now contradiction H | discriminate |].
+  destruct (sh =? 0)%N; discriminate.
+Qed.
